@@ -162,7 +162,7 @@ def _expand_chunk(hs):
         return False, traceback.format_exc()
 
 
-def replay_bfs(expand, k0, procs=16, cap=None, min_parallel=48):
+def replay_bfs(expand, k0, procs=16, cap=None, min_parallel=48, eager_pool=False):
     '''level-synchronous BFS for replay-based adapters (live objects are
     rebuilt from the event history).  expand(history) must return
     (successors, violations) with successors = [(canon_key, event)] and
@@ -183,6 +183,10 @@ def replay_bfs(expand, k0, procs=16, cap=None, min_parallel=48):
     depth = 0
     pool = None
     try:
+        if eager_pool and procs > 1:
+            # fork before the parent touches any resource the workers must not
+            # inherit in an open state (e.g. a store directory)
+            pool = mp.get_context('fork').Pool(procs)
         while level:
             if len(level) >= min_parallel and procs > 1:
                 if pool is None:
